@@ -1,6 +1,7 @@
 import depgraphs
 import histories
 import layouts
+import lspchecks
 
 
 def warm_layouts():
@@ -21,5 +22,6 @@ CHECKS = {
     "C07": histories.check_c07,
     "C08": layouts.check_c08,
     "C16": depgraphs.check_c16,
+    "C19": lspchecks.check_c19,
 }
 WARM = [warm_layouts]
